@@ -13,16 +13,17 @@ EXTENDS Naturals, Sequences, FiniteSets, TLC, Json
 CONSTANTS NThr, Rounds, FastIter, UseTry, Hist
 
 Thr == 1..NThr
-VARIABLES flag, pc, i, left, inCS, tryOK, hist
-bvars == <<flag, pc, i, left, inCS, tryOK>>
+VARIABLES flag, pc, i, left, inCS, tryOK, slept, hist
+bvars == <<flag, pc, i, left, inCS, tryOK, slept>>
 vars == <<bvars, hist>>
 
 Rec(t, a, r) == hist' = IF ~Hist THEN hist ELSE Append(hist, [t |-> t, a |-> a, r |-> r, flag |-> flag', cs |-> Cardinality(inCS')])
 
 Init == /\ flag = FALSE /\ pc = [t \in Thr |-> "idle"] /\ i = [t \in Thr |-> 0]
-        /\ left = [t \in Thr |-> Rounds] /\ inCS = {} /\ tryOK = TRUE /\ hist = <<>>
+        /\ left = [t \in Thr |-> Rounds] /\ inCS = {} /\ tryOK = TRUE /\ slept = {} /\ hist = <<>>
 
 Enter(t) == pc' = [pc EXCEPT ![t] = "cs"] /\ inCS' = inCS \cup {t}
+KeepSlept == slept' = slept
 SpinNext(t) == IF i[t] + 1 < FastIter
                  THEN pc' = [pc EXCEPT ![t] = "spin_load"] /\ i' = [i EXCEPT ![t] = i[t] + 1]
                  ELSE pc' = [pc EXCEPT ![t] = "yield"] /\ i' = [i EXCEPT ![t] = 0]
@@ -32,58 +33,59 @@ LockXchg1(t) == /\ pc[t] \in {"idle", "xchg1"} /\ left[t] > 0
                 /\ IF ~flag THEN Enter(t) /\ UNCHANGED i
                             ELSE pc' = [pc EXCEPT ![t] = "spin_load"] /\ i' = [i EXCEPT ![t] = 0] /\ UNCHANGED inCS
                 /\ UNCHANGED <<left, tryOK>>
-                /\ Rec(t, "xchg1", IF flag THEN 1 ELSE 0)
+                /\ KeepSlept /\ Rec(t, "xchg1", IF flag THEN 1 ELSE 0)
 
 SpinLoad(t) == /\ pc[t] = "spin_load"
                /\ IF flag THEN SpinNext(t) ELSE pc' = [pc EXCEPT ![t] = "spin_xchg"] /\ UNCHANGED i
                /\ UNCHANGED <<flag, left, inCS, tryOK>>
-               /\ Rec(t, "spin_load", IF flag THEN 1 ELSE 0)
+               /\ KeepSlept /\ Rec(t, "spin_load", IF flag THEN 1 ELSE 0)
 
 SpinXchg(t) == /\ pc[t] = "spin_xchg"
                /\ flag' = TRUE
                /\ IF ~flag THEN Enter(t) /\ UNCHANGED i ELSE SpinNext(t) /\ UNCHANGED inCS
                /\ UNCHANGED <<left, tryOK>>
-               /\ Rec(t, "spin_xchg", IF flag THEN 1 ELSE 0)
+               /\ KeepSlept /\ Rec(t, "spin_xchg", IF flag THEN 1 ELSE 0)
 
 Yield(t) == /\ pc[t] = "yield" /\ pc' = [pc EXCEPT ![t] = "y_load"]
-            /\ UNCHANGED <<flag, i, left, inCS, tryOK>> /\ Rec(t, "yield", 0)
+            /\ UNCHANGED <<flag, i, left, inCS, tryOK>> /\ KeepSlept /\ Rec(t, "yield", 0)
 
 YLoad(t) == /\ pc[t] = "y_load"
             /\ pc' = [pc EXCEPT ![t] = IF flag THEN "sleep" ELSE "y_xchg"]
-            /\ UNCHANGED <<flag, i, left, inCS, tryOK>> /\ Rec(t, "y_load", IF flag THEN 1 ELSE 0)
+            /\ UNCHANGED <<flag, i, left, inCS, tryOK>> /\ KeepSlept /\ Rec(t, "y_load", IF flag THEN 1 ELSE 0)
 
 YXchg(t) == /\ pc[t] = "y_xchg"
             /\ flag' = TRUE
             /\ IF ~flag THEN Enter(t) ELSE pc' = [pc EXCEPT ![t] = "sleep"] /\ UNCHANGED inCS
-            /\ UNCHANGED <<i, left, tryOK>> /\ Rec(t, "y_xchg", IF flag THEN 1 ELSE 0)
+            /\ UNCHANGED <<i, left, tryOK>> /\ KeepSlept /\ Rec(t, "y_xchg", IF flag THEN 1 ELSE 0)
 
 Sleep(t) == /\ pc[t] = "sleep" /\ pc' = [pc EXCEPT ![t] = "sleeping"]
-            /\ UNCHANGED <<flag, i, left, inCS, tryOK>> /\ Rec(t, "sleep", 0)
+            /\ UNCHANGED <<flag, i, left, inCS, tryOK>> /\ KeepSlept /\ Rec(t, "sleep", 0)
 
 Wake(t) == /\ pc[t] = "sleeping" /\ pc' = [pc EXCEPT ![t] = "xchg1"]
+           /\ slept' = slept \cup {t}
            /\ UNCHANGED <<flag, i, left, inCS, tryOK>> /\ Rec(t, "wake", 0)
 
 TryLoad(t) == /\ UseTry /\ pc[t] = "idle" /\ left[t] > 0
               /\ IF flag THEN /\ pc' = pc /\ left' = [left EXCEPT ![t] = left[t] - 1]     \* try_lock() = false
                          ELSE /\ pc' = [pc EXCEPT ![t] = "try_xchg"] /\ UNCHANGED left
-              /\ UNCHANGED <<flag, i, inCS, tryOK>> /\ Rec(t, "try_load", IF flag THEN 1 ELSE 0)
+              /\ UNCHANGED <<flag, i, inCS, tryOK>> /\ KeepSlept /\ Rec(t, "try_load", IF flag THEN 1 ELSE 0)
 
 TryXchg(t) == /\ pc[t] = "try_xchg"
               /\ flag' = TRUE
               /\ IF ~flag THEN /\ Enter(t) /\ tryOK' = (tryOK /\ inCS = {}) /\ UNCHANGED left
                           ELSE /\ pc' = [pc EXCEPT ![t] = "idle"] /\ left' = [left EXCEPT ![t] = left[t] - 1]
                                /\ UNCHANGED <<inCS, tryOK>>
-              /\ UNCHANGED i /\ Rec(t, "try_xchg", IF flag THEN 1 ELSE 0)
+              /\ UNCHANGED i /\ KeepSlept /\ Rec(t, "try_xchg", IF flag THEN 1 ELSE 0)
 
 \* the harness performs one scheduling point inside the critical section
 InCS(t) == /\ pc[t] = "cs" /\ pc' = [pc EXCEPT ![t] = "unlock"]
-           /\ UNCHANGED <<flag, i, left, inCS, tryOK>> /\ Rec(t, "incs", 0)
+           /\ UNCHANGED <<flag, i, left, inCS, tryOK>> /\ KeepSlept /\ Rec(t, "incs", 0)
 
 Unlock(t) == /\ pc[t] = "unlock"
              /\ flag' = FALSE /\ inCS' = inCS \ {t}
              /\ left' = [left EXCEPT ![t] = left[t] - 1]
              /\ pc' = [pc EXCEPT ![t] = "idle"]
-             /\ UNCHANGED <<i, tryOK>> /\ Rec(t, "unlock", 0)
+             /\ UNCHANGED <<i, tryOK>> /\ KeepSlept /\ Rec(t, "unlock", 0)
 
 Step(t) == \/ LockXchg1(t) \/ SpinLoad(t) \/ SpinXchg(t) \/ Yield(t) \/ YLoad(t) \/ YXchg(t)
            \/ Sleep(t) \/ Wake(t) \/ TryLoad(t) \/ TryXchg(t) \/ InCS(t) \/ Unlock(t)
@@ -102,5 +104,7 @@ View == bvars
 Finished == AllDone
 EmitAll == Finished => PrintT(<<"BEH", ToJson(hist)>>)
 WitSleep == ~(\E t \in Thr : pc[t] = "sleeping") \/ (PrintT(<<"BEH", ToJson(hist)>>) /\ FALSE)
+\* a waiter that slept, woke up and failed its first exchange again while the lock is still held
+WitSecondRound == ~(\E t \in Thr : t \in slept /\ pc[t] = "spin_load" /\ i[t] = 1) \/ (PrintT(<<"BEH", ToJson(hist)>>) /\ FALSE)
 WitTryFail2 == ~(\E t \in Thr : pc[t] = "try_xchg" /\ flag) \/ (PrintT(<<"BEH", ToJson(hist)>>) /\ FALSE)
 =============================================================================
